@@ -504,3 +504,20 @@ def length_safety(ctx, n):
                            f"{ref}, with options {got}",
                            {"instance": zoo.describe(info), "options": o, "reference_options": off, "reference": list(ref), "got": list(got)})
                 break
+
+
+def replay(ctx, body):
+    """re-runs a reported case: the instance under the reference options and under the reported option vector (with the scanning
+    window of the report, if any); True = the two outcomes still differ"""
+    if "instance" not in body:
+        print("REPLAY: this report carries no instance (correspondence-only)"); return None
+    info = zoo.rebuild(body["instance"])
+    ref_o = body.get("reference_options"); o = body.get("options")
+    if "window" in body:
+        w = tuple(body["window"]); ref = scan_outcome(info, ref_o, w); got = scan_outcome(info, o, w)
+    elif ref_o is None and "captured" in body:
+        ref = outcome(info, {"use_min_gen_set_lowerbound": False, "optimize_with_greedy": False}); got = outcome(info, o)
+    else:
+        ref = outcome(info, ref_o); got = outcome(info, o)
+    print("reference options:", ref_o, "->", ref); print("reported options :", o, "->", got)
+    return not same(ref, got)
